@@ -38,6 +38,12 @@ OPS = {
     "and3": "if(x > 0.95 and y < 0.52 and k > 1, 1, 2)", "eq": "if(x == 1.0, 1, 2)", "neq": "if(x != 1.0, 1, 2)", "ge": "if(x >= 1.0, 1, 2)", "le": "if(x <= 1.0, 1, 2)",
     "lt": "if(x < 1.0, 1, 2)", "gt": "if(x > 1.0, 1, 2)", "time": "x * engine.time + y", "intdiv-const": "7 / 2 * x", "sci": "1e-3 * x + 2.5e2 * y", "bigexp": "exp(x / 100) - 1",
 }
+# every unary function with each argument shape (atom is covered above): sum, difference, product, negation, quotient
+for _f in ("sqrt", "exp", "log", "sin", "cos", "atan", "floor", "ceil", "abs"):
+    for _an, _a in (("sum", "x * 2.5 + y"), ("diff", "x - k / 4"), ("neg", "-x * 0.5 + 2"), ("quot", "(x + 3) / (y + 2)"), ("diff2", "3.25 - x - y")):
+        OPS[f"{_f}-of-{_an}"] = f"{_f}({_a})"
+OPS.update({"neg-of-sum": "-(x + y * 2)", "sub-of-sum": "k - (x + y)", "sub-of-diff": "k - (x - y)", "div-of-prod": "k / (x * 2 + 1) / (y + 1)", "pow-of-neg": "(-x) ^ 2 - x ^ 2 * 3",
+            "pow-tower": "2 ^ 3 ^ 0.5 + (x ^ 2) ^ 1.5", "if-in-arith": "2 * if(x > 1.05, 1, 3) - if(y < 0.49, y, k) / 4", "cond-of-arith": "if(x * 2 - y > 1.55, x, y)"})
 CLASH = ["beta", "gamma", "E", "I", "S", "N", "Q", "zeta", "Symbol", "lambda", "pi", "oo", "nan", "im", "re", "sign", "Min", "alpha", "test", "var", "E1", "beta_", "x_", "time_", "t", "dt", "states", "values"]
 
 
@@ -74,6 +80,11 @@ def family():
     out.append(("comp|same-names-in-two-components", mmt({"c.x": 1.0, "c.y": 0.5, "d.x": 0.25}, "dot(x) = d.x - x\ndot(y) = k - y\nk = 2.5\n", extra_components=same)))
     nestedsame = "\n[d]\ndot(v) = alpha * (1 - v) - beta * v\n    alpha = c.x\n    beta = 2\n"
     out.append(("comp|same-nested-names-in-two-components", mmt({"c.x": 0.3, "c.y": 0.5, "d.v": 0.25}, gate("x", "0.5 * k", "exp(-y)") + "dot(y) = k - y\nk = 2.5\n", extra_components=nestedsame)))
+    gate2 = lambda comp, s, a, b: f"\n[{comp}]\ndot({s}) = (inf - {s}) / tau\n    inf = {a}\n    tau = {b}\n"
+    out.append(("comp|same-owner-and-nested-names-in-two-components", mmt({"c.y": 0.5, "ikr.x": 0.2, "iks.x": 0.4}, "dot(y) = k - y + ikr.x * iks.x\nk = 2.5\n",
+                                                                            extra_components=gate2("ikr", "x", "1 / (1 + exp(-c.y))", "2 + c.y") + gate2("iks", "x", "c.y / 3", "5 - c.y"))))
+    out.append(("comp|three-components-same-gate", mmt({"c.y": 0.5, "a.m": 0.2, "b.m": 0.4, "d.m": 0.6}, "dot(y) = k - y + a.m + b.m * d.m\nk = 2.5\n",
+                                                       extra_components=gate2("a", "m", "c.y", "2") + gate2("b", "m", "1 - c.y", "3") + gate2("d", "m", "c.y * c.y", "4"))))
     out.append(("const|expression", mmt({"c.x": 1.0, "c.y": 0.5}, "dot(x) = k2 * x - k3\ndot(y) = k - y\nk = 2.5\nk2 = 2 * 3\nk3 = k * 2 + k2\nk4 = -1.5\n")))
     out.append(("const|negative-and-sci", mmt({"c.x": -1.0, "c.y": 5e-3}, "dot(x) = k * x + k5\ndot(y) = k - y\nk = -2.5\nk5 = 1.5e-3\n")))
     out.append(("units", mmt({"c.x": 1.0, "c.y": 0.5}, "dot(x) = k * x\n    in [mV/ms]\ndot(y) = k - y\n    in [1/ms]\nk = 2.5\n    in [mS/uF]\n")))
